@@ -222,7 +222,14 @@ def operand_attr(ctx):
               isinstance(c.func, ast.Attribute) and
               c.func.attr == 'trace_generic']
         rets = [n for n in ast.walk(f.node) if isinstance(n, ast.Return)]
-        ok = tr and [unparse(a) for a in tr[0].args] == \
+        rebound = [t.id for n_ in ast.walk(f.node)
+                   if isinstance(n_, (ast.Assign, ast.AugAssign))
+                   for tt in (n_.targets if isinstance(n_, ast.Assign)
+                              else [n_.target])
+                   for t in ast.walk(tt) if isinstance(t, ast.Name) and
+                   t.id in ('Hx', 'Hy', 'Px', 'Py', 'wavelength',
+                            'surface_number')]
+        ok = not rebound and tr and [unparse(a) for a in tr[0].args] == \
             ['Hx', 'Hy', 'Px', 'Py', 'wavelength'] and rets and \
             unparse(rets[0].value) == \
             f'optic.surface_group.{attr}[surface_number, 0]'
